@@ -1,7 +1,10 @@
 #!/bin/sh
 # Full .vo build of the Coq development (never -vos). Regenerates _CoqProject from the tree.
+# usage: build.sh [targets...]   (no target = everything).  Serialised with flock.
 set -e
 cd "$(dirname "$0")"
+exec 9> .build.lock
+flock 9
 {
   echo "-Q theories PV"
   echo "-arg -w -arg -notation-overridden,-deprecated-hint-without-locality,-deprecated-instance-without-locality,-deprecated-syntactic-definition"
@@ -14,4 +17,4 @@ else
   rm -f _CoqProject.new
   [ -f Makefile.coq ] || coq_makefile -f _CoqProject -o Makefile.coq > /dev/null
 fi
-exec timeout ${VERIF_BUILD_TIMEOUT:-3000} make -f Makefile.coq -j${VERIF_JOBS:-16} "$@"
+timeout ${VERIF_BUILD_TIMEOUT:-3000} make -f Makefile.coq -j${VERIF_JOBS:-16} "$@"
